@@ -486,6 +486,14 @@ def canon_model(step_str):
         for k, (kind, raw, _, _) in st['opts'].items():
             t, ch = intro_kind(kind)
             c['intro'][k[1:] if k.startswith(':') else k] = [t, ch, raw]
+        # mintro._list_buildoptions also lists every per-subproject override of a built-in option
+        # under its subproject-qualified name, with the overriding value and the type / choices of
+        # the global option (the model's intro component is a snapshot of the whole store)
+        for k, v in st['aug'].items():
+            g = st['opts'].get(k.split(':', 1)[1])
+            if g is not None:
+                t, ch = intro_kind(g[0])
+                c['intro'][k] = [t, ch, v]
     return c
 
 
@@ -765,14 +773,14 @@ def run(ctx):
     sets = []
     sets.append(('corpus', corpus()))
     # VERIF_C08_SCALE shrinks the thorough random stream for smoke runs (default 1 = full size)
-    nrand = int(1500 * float(os.environ.get('VERIF_C08_SCALE', '1'))) if thorough else 40
+    nrand = int(1500 * float(os.environ.get('VERIF_C08_SCALE', '1'))) if thorough else 30
     sets.append(('random', [gen_case(rng, rng.randint(3, 7)) for _ in range(nrand)]))
     sets.append(('exhaustive', enumerate_small(thorough)))
     allwire, allmodel = [], []
     dist = {}
     nsteps = 0
     for label, cases in sets:
-        wire, model, results = evaluate(ctx, cases, built, thorough or label == 'corpus', label)
+        wire, model, results = evaluate(ctx, cases, built, thorough, label)
         allwire += wire
         allmodel += model
         oracle(ctx, cases, results, label)
@@ -793,7 +801,7 @@ def run(ctx):
         for c in cases[:2]:
             ctx.sample({'set': label, 'steps': [s if s[0] != 'E' else ['E', '...'] for s in c['steps']], 'cfg': c['cfg']})
     if built and all(m is not None for m in allmodel):
-        ctx.kernel_crosscheck('Options.LcEntry', allwire, allmodel, limit=300 if thorough else 60)
+        ctx.kernel_crosscheck('Options.LcEntry', allwire, allmodel, limit=300 if thorough else 40)
     return ctx.finish(
         level='proof',
         trusted=['Coq 8.16.1 kernel (coqc, vm_compute; no native_compute)',
